@@ -180,13 +180,32 @@ def run_history(ctx, base, spec, ops):
     mon = monitors.Monitors(sim, ctx, rp)
     foreign = 0
     try:
+        def node_ident():
+            return {n.name: (n.host, bool(n.active), n.group_id, n.root, n.storage_type) for n in w.StorageNode.select()}
+
         for op in ops:
-            if op[0] == "iter":
+            if op[0] in ("iter", "late"):
                 host = op[1]
                 ready = set(sim.local_ready_nodes(host))
                 before = copy_rows()
                 trees0 = sim.trees()
-                res = histories.apply_op(sim, mon, op)
+                ident = {"v": node_ident()}
+                if op[0] == "late":
+                    # the operator changes node records after the daemon has read them (main loop done, queued tasks still to run)
+                    def late(sub=op[2]):
+                        for o in sub:
+                            histories.apply_op(sim, mon, tuple(o))
+                        ident["v"] = node_ident()
+                    sim.before_tasks = late
+                    res = sim.iterate(host)
+                    sim.before_tasks = None
+                else:
+                    res = histories.apply_op(sim, mon, op)
+                now = node_ident()
+                for name, v in ident["v"].items():
+                    if now.get(name) != v:
+                        mon.fail("C07:node-record-overwritten", f"an iteration of the daemon on {host} changed the record of node {name} from (host, active, group, root, type) = {v} to {now.get(name)}"
+                                 + (" — undoing what the operator had just set" if op[0] == "late" else ""))
                 if res["error"]:
                     mon.fail("daemon-died", f"daemon on {host} died: {res['error'][:300]}")
                 after = copy_rows()
@@ -223,7 +242,24 @@ def gen_ops(rng, spec):
                                  ("cli", "node modify", [n, f"--host={rng.choice(histories.HOSTS + ['elsewhere'])}"])]))
     for e in extra:
         ops.insert(rng.randrange(len(ops) + 1), e)
+    # some operator actions on node records land after the daemon's main loop has read the nodes and before its queued tasks run
+    for j in range(len(ops) - 1):
+        if ops[j][0] == "iter" and ops[j + 1][0] == "cli" and ops[j + 1][1] in ("node deactivate", "node activate", "node modify") and rng.random() < 0.6:
+            ops[j] = ("late", ops[j][1], [list(ops[j + 1])])
+            ops[j + 1] = ("iter", ops[j][1])
     return ops
+
+
+def late_corpus():
+    out = []
+    for change in (("cli", "node deactivate", ["n2"]), ("cli", "node modify", ["n2", "--host=elsewhere"]), ("cli", "node deactivate", ["n1"])):
+        spec = {"groups": [{"name": "g1"}, {"name": "g2"}],
+                "nodes": [{"name": "n1", "group": "g1", "stype": "A", "host": "h1", "active": True, "username": "u", "address": "addr"},
+                          {"name": "n2", "group": "g2", "stype": "A", "host": "h1", "active": True, "username": "u", "address": "addr"}],
+                "acqs": ["acq1"], "files": [{"acq": "acq1", "name": "f.dat", "size": 150}], "copies": [{"file": 0, "node": "n1", "has": "Y", "wants": "Y"}],
+                "reqs": [{"file": 0, "from": "n1", "to": "g2", "state": "pending"}], "rules": [], "unregistered": [], "ireqs": []}
+        out.append((spec, [("late", "h1", [list(change)]), ("iter", "h1"), ("iter", "h1")]))
+    return out
 
 
 def explore(ctx):
@@ -256,9 +292,13 @@ def explore(ctx):
     for b in bad[:3]:
         ctx.broke("correspondence", f"locality model and implementation differ on {keep[b]!r}")
     total = 0
-    for k in range(40 if q else 1500):
-        spec = histories.gen_spec(ctx.rng)
-        ops = gen_ops(ctx.rng, spec)
+    corpus = late_corpus()
+    for k in range((40 if q else 1500) + len(corpus)):
+        if k < len(corpus):
+            spec, ops = corpus[k]
+        else:
+            spec = histories.gen_spec(ctx.rng)
+            ops = gen_ops(ctx.rng, spec)
         f = run_history(ctx, base, spec, ops)
         total += f
         ctx.count("history")
